@@ -1,6 +1,14 @@
 package main
 
 import (
+	"strings"
+	"os"
+	"strconv"
+	"sort"
+	"path/filepath"
+	"go/token"
+	"go/parser"
+	"go/ast"
 	"fmt"
 	"io"
 	"log"
@@ -304,6 +312,66 @@ func genC03(r *Run) {
 			}
 		}
 	}
+	// ---- vendor strings for the provisioning extractors (ztpv4, ztpv6, netboot): every string literal found in their
+	// source on this run is a dictionary word; each is followed by 0..6 fields joined by each separator, and carried
+	// in the options those extractors read (DHCPv6 16, 17; DHCPv4 60, 43, 124, 125)
+	{
+		words := sourceStrings(os.Getenv("VERIF_REPO"), "dhcpv4/ztpv4", "dhcpv6/ztpv6", "netboot")
+		words = append(words, "Arista;", "Cisco;", "ZPESystems:", "NVOS##", "1271", "Juniper-", "Juniper:", "X")
+		seen := map[string]bool{}
+		var vendorStrings []string
+		for _, w := range words {
+			if seen[w] || len(w) == 0 || len(w) > 24 {
+				continue
+			}
+			seen[w] = true
+			for _, sep := range []string{";", ":", "-", "##", "/", " "} {
+				for n := 0; n <= 6; n++ {
+					f := make([]string, n)
+					for i := range f {
+						f[i] = []string{"DCS-7050S-64", "01.23", "", "x", "JPE12221671", "7"}[(i+n)%6]
+					}
+					d := w + strings.Join(f, sep)
+					if strings.HasSuffix(w, sep) || n == 0 {
+						vendorStrings = append(vendorStrings, d)
+					} else {
+						vendorStrings = append(vendorStrings, w+sep+strings.Join(f, sep))
+					}
+				}
+			}
+		}
+		r.Count(fmt.Sprintf("vendor-strings=%d", len(vendorStrings)))
+		for i, d := range vendorStrings {
+			if len(d) > 200 {
+				continue
+			}
+			ent := uint32([]int{0, 1271, 30065, 33049, 2636, 6027}[i%6])
+			b := []byte(d)
+			v6try(append([]byte{1, 1, 2, 3}, tlvb(16, append(w32(ent), append(w16(len(b)), b...)...))...))
+			v6try(append([]byte{1, 1, 2, 3}, tlvb(17, append(w32(ent), tlvb(uint16(1+i%3), b)...))...))
+			if i%4 == 0 {
+				v6try(append(append([]byte{12, 0}, make([]byte, 32)...), tlvb(9, append([]byte{1, 1, 2, 3}, tlvb(16, append(w32(ent), append(w16(len(b)), b...)...))...))...))
+			}
+			opts := map[byte][]byte{53: {1}, 60: b}
+			if i%3 == 0 {
+				opts[43] = b
+			}
+			if i%5 == 0 && len(b) < 200 {
+				opts[124] = append(append(w32(ent), byte(len(b))), b...)
+				opts[125] = append(append(w32(ent), byte(len(b)+2)), append([]byte{1, byte(len(b))}, b...)...)
+			}
+			pb := pktOfArgs(r.randPkt(opts)).ToBytes()
+			var p4 *dhcpv4.DHCPv4
+			entry("dhcpv4.FromBytes", pb, func() {
+				if x, err := dhcpv4.FromBytes(append([]byte{}, pb...)); err == nil {
+					p4 = x
+				}
+			})
+			if p4 != nil {
+				obs += observeV4(r, pb, p4)
+			}
+		}
+	}
 	// ---- netboot conversations (sequences of 0..4 decoded messages)
 	for i := 0; i < r.N(400, 20000); i++ {
 		var conv []dhcpv6.DHCPv6
@@ -534,4 +602,37 @@ func (r *Run) netbootMsg(t byte) (dhcpv6.DHCPv6, []byte) {
 	w := append([]byte{t, 9, 9, 9}, ow...)
 	m, _ := dhcpv6.FromBytes(w)
 	return m, w
+}
+
+
+// sourceStrings: the string literals of the non-test Go files of the given package directories (a fuzzing
+// dictionary taken from the code under test on every run)
+func sourceStrings(repo string, dirs ...string) []string {
+	var out []string
+	if repo == "" {
+		return out
+	}
+	fset := token.NewFileSet()
+	for _, d := range dirs {
+		files, _ := filepath.Glob(filepath.Join(repo, d, "*.go"))
+		sort.Strings(files)
+		for _, f := range files {
+			if strings.HasSuffix(f, "_test.go") {
+				continue
+			}
+			af, err := parser.ParseFile(fset, f, nil, 0)
+			if err != nil {
+				continue
+			}
+			ast.Inspect(af, func(n ast.Node) bool {
+				if bl, ok := n.(*ast.BasicLit); ok && bl.Kind == token.STRING {
+					if v, err := strconv.Unquote(bl.Value); err == nil && len(v) > 0 && len(v) <= 24 && !strings.ContainsAny(v, "%\n ") {
+						out = append(out, v)
+					}
+				}
+				return true
+			})
+		}
+	}
+	return out
 }
